@@ -646,16 +646,14 @@ func c18R7(e *Engine) {
 					return
 				}
 				construct := role + ".Client." + name + "->" + strings.TrimPrefix(e.fname(c.Call.StaticCallee()), "core.")
-				// receiver: result of a lookup call whose argument is the request's TableName
-				recv := strip(c.Call.Args[0])
-				ok2 := false
-				detail := ""
-				if ex, isEx := recv.(*ssa.Extract); isEx {
-					if lc, isC := ex.Tuple.(*ssa.Call); isC && lc.Call.StaticCallee() != nil && e.fnRole(lc.Call.StaticCallee()) == role {
-						ro := strings.Join(e.origins(recv), "|")
-						ao := strings.Join(e.origins(lc.Call.Args[len(lc.Call.Args)-1]), "|")
-						detail = "table ← " + ro + " keyed by " + ao
-						ok2 = (ro == "mapval-of field:Client.tables" || ro == "const:nil|mapval-of field:Client.tables") && strings.HasSuffix(ao, "Input.TableName")
+				// receiver: a value of Client.tables looked up under the request's own TableName (possibly through helpers)
+				ros, kos := e.originsAndKeys(c.Call.Args[0])
+				ro, ao := strings.Join(ros, "|"), strings.Join(kos, "|")
+				detail := "table ← " + ro + " keyed by " + ao
+				ok2 := (ro == "mapval-of field:Client.tables" || ro == "const:nil|mapval-of field:Client.tables") && len(kos) > 0
+				for _, k := range kos {
+					if !strings.HasSuffix(k, "Input.TableName") {
+						ok2 = false
 					}
 				}
 				e.check(ok2, "R7", construct, e.ipos(c), "the core call operates on the table looked up under the request's own TableName (%s)", detail)
